@@ -128,7 +128,7 @@ func (f *ReadFromString) Call(s *slip.Scope, args slip.List, depth int) slip.Obj
 		if end < 0 {
 			end = len(ra)
 		}
-		if start < 0 || len(ra) <= start || end < 0 || len(ra) < end || end < start {
+		if start < 0 || len(ra) < start || end < 0 || len(ra) < end || end < start {
 			panic(fmt.Sprintf("the bounding indices %d and %d are not valid for string of length %d",
 				start, end, len(ra)))
 		}
